@@ -13,6 +13,7 @@ CONSTANTS
   ClassSet = {"bnd", "field", "name", "id", "idfull", "data", "datafull"}
   AnswerSet = {"terr", "ok", "503", "404"}
   TailSet = {"good", "stuck"}
+  RetrySet = {"none"}
   FixScanner = TRUE
   FixCursor = TRUE
   Fix5xx = TRUE
